@@ -23,7 +23,7 @@ func init() {
 	})
 	register("C14", &propDef{
 		Title: "The builder does each piece of work once and always terminates",
-		Rules: []func(*Checker){ruleC14Memo, ruleC14Trace, ruleC14Queue, aliasRule(ruleC08NoDrop, "C08.nodrop", "C14.nodrop", 2),
+		Rules: []func(*Checker){ruleC14Memo, ruleC14Trace, ruleTraceCalls("C14.calls"), ruleCtxNonNil("C14.ctx"), ruleC14Queue, aliasRule(ruleC08NoDrop, "C08.nodrop", "C14.nodrop", 2),
 			aliasRuleFiltered(ruleC06CanonURL, "C06.canonurl", "C14.canonkey", 1, func(o Oblig) bool { return strings.Contains(o.Key, "canonical") })},
 		NotDecided: []string{
 			"termination in general (needs a ranking argument over the world); the analysed-set store is the structural necessary condition checked",
@@ -304,6 +304,60 @@ func classifyMapRange(p *Prog, mr mapRange) (string, string) {
 				}
 			}
 		}
+		// the slice starts empty, and "nothing" is answered only for an empty map
+		for _, ap := range appends {
+			for _, in := range mr.Head.Instrs {
+				ph, ok := in.(*ssa.Phi)
+				if !ok {
+					continue
+				}
+				feeds := false
+				for _, e := range ph.Edges {
+					if e == ssa.Value(ap) {
+						feeds = true
+					}
+				}
+				if !feeds {
+					continue
+				}
+				for _, e := range ph.Edges {
+					if ms, ok := canon(e).(*ssa.MakeSlice); ok {
+						if k, isC := constInt(ms.Len); !isC || k != 0 {
+							return "E4", "the slice the elements are appended to does not start empty (make with a non-zero length): the result begins with zero-value elements that are not in the map"
+						}
+					}
+				}
+			}
+		}
+		for _, ap := range appends {
+			if refs := ap.Referrers(); refs != nil {
+				for _, r := range *refs {
+					st, ok := r.(*ssa.Store)
+					if !ok || st.Val != ssa.Value(ap) {
+						continue
+					}
+					for _, w := range cellWrites(st.Addr) {
+						if ms, ok := w.Val.(*ssa.MakeSlice); ok {
+							if k, isC := constInt(ms.Len); !isC || k != 0 {
+								return "E4", "the slice the elements are appended to does not start empty (make with a non-zero length): the result begins with zero-value elements that are not in the map"
+							}
+						}
+					}
+				}
+			}
+		}
+		empties := lenZeroEdges(mr.Fn, func(v ssa.Value) bool { return canon(v) == canon(mr.Range.X) })
+		for _, r := range returnsOf(mr.Fn) {
+			if len(r.Results) != 1 || !isNilConst(r.Results[0]) || mr.Body[r.Block()] {
+				continue
+			}
+			if _, isSlice := r.Results[0].Type().Underlying().(*types.Slice); !isSlice {
+				continue
+			}
+			if len(empties) == 0 || !guarded(r.Block(), empties) {
+				return "E4", "the function answers nil on a path where the map may have elements (the emptiness test is missing, inverted or compares with something other than 0): recorded entries cannot be read back"
+			}
+		}
 		return "E2", "appends to a slice that is sorted before it escapes"
 	}
 	nonSliceAcc := 0
@@ -476,6 +530,9 @@ func sortKeyFromMapKey(p *Prog, mr mapRange, ap *ssa.Call, sc *ssa.Call, kExt ss
 	}
 	if less == nil || len(less.Blocks) == 0 {
 		return true, ""
+	}
+	if okT, whyT, decided := comparatorIsTotal(less); decided && !okT {
+		return false, "the slice built from the map is sorted with a comparator that is not a strict total order: " + whyT
 	}
 	whole := false
 	fields := map[int]string{}
@@ -1556,4 +1613,313 @@ func keyExtraFields(p *Prog, key ssa.Value, call *ssa.Call) []string {
 		}
 	}
 	return extra
+}
+
+// ---------- callbacks of the tracer: called, and only when set ----------
+
+// isCallbackTable: a struct type all of whose fields are functions (the build
+// tracer): every field may be nil, its zero value is the "no tracer" tracer.
+func isCallbackTable(t types.Type) bool {
+	st, ok := derefType(t).Underlying().(*types.Struct)
+	if !ok || st.NumFields() == 0 {
+		return false
+	}
+	for i := 0; i < st.NumFields(); i++ {
+		if _, isF := st.Field(i).Type().Underlying().(*types.Signature); !isF {
+			return false
+		}
+	}
+	return true
+}
+
+// ruleTraceCalls — every read of a tracer callback is followed, on the edge
+// where it is not nil, by a call of it; it is never called anywhere else.
+func ruleTraceCalls(id string) func(*Checker) {
+	return func(c *Checker) {
+		c.rule(id, "Every callback read out of the build tracer (a struct of optional function fields; the zero value means no tracer) is compared with nil, called on the not-nil edge, and called nowhere else: an inverted test calls a nil function as soon as the event occurs without a tracer (the default) and never delivers the event with one; a read whose call is gone leaves a Start event without its Success/Failure.", 8)
+		p := c.P
+		n := 0
+		for _, fn := range p.Funcs {
+			if !inBundlePkg(p, fn) {
+				continue
+			}
+			eachInstr(fn, func(in ssa.Instruction) {
+				ld, ok := in.(*ssa.UnOp)
+				if !ok || ld.Op != token.MUL {
+					return
+				}
+				fa, ok := ld.X.(*ssa.FieldAddr)
+				if !ok || !isCallbackTable(fa.X.Type()) {
+					return
+				}
+				n++
+				key := fmt.Sprintf("callback %s.%s", typeShort(derefType(fa.X.Type())), fieldOf(fa).Name())
+				isNilCmp := func(v ssa.Value, op token.Token) bool {
+					bo, ok := v.(*ssa.BinOp)
+					return ok && bo.Op == op && ((bo.X == ssa.Value(ld) && isNilConst(bo.Y)) || (bo.Y == ssa.Value(ld) && isNilConst(bo.X)))
+				}
+				neT, _ := condEdges(fn, func(v ssa.Value) bool { return isNilCmp(v, token.NEQ) })
+				_, eqF := condEdges(fn, func(v ssa.Value) bool { return isNilCmp(v, token.EQL) })
+				nonNil := append(neT, eqF...)
+				var calls []ssa.CallInstruction
+				escapes := false
+				if refs := ld.Referrers(); refs != nil {
+					for _, r := range *refs {
+						switch x := r.(type) {
+						case ssa.CallInstruction:
+							if x.Common().Value == ssa.Value(ld) {
+								calls = append(calls, x)
+							} else {
+								escapes = true // handed on as an argument: not followed
+							}
+						case *ssa.BinOp, *ssa.DebugRef:
+						default:
+							escapes = true
+						}
+					}
+				}
+				if escapes {
+					c.pass(id, p.FuncName(fn), key, p.Pos(ld.Pos()), "handed on as a value (not followed)")
+					return
+				}
+				okAll, why := len(calls) > 0, "the callback is read but never called: the event is not delivered"
+				for _, cl := range calls {
+					if len(nonNil) == 0 || !guarded(cl.Block(), nonNil) {
+						okAll, why = false, "the callback is called on a path where it may be nil (no test, or the call sits on the nil edge): without a tracer — the default — this panics, and with one the event is never delivered"
+					}
+				}
+				c.check(okAll, id, p.FuncName(fn), key, p.Pos(ld.Pos()), fmt.Sprintf("%d call(s), each past the not-nil edge", len(calls)), why)
+			})
+		}
+		_ = n
+	}
+}
+
+func typeShort(t types.Type) string {
+	if n, ok := types.Unalias(t).(*types.Named); ok {
+		return n.Obj().Name()
+	}
+	return t.String()
+}
+
+// ruleCtxNonNil — the context handed to the fetcher and the registry client is
+// never nil.
+func ruleCtxNonNil(id string) func(*Checker) {
+	return func(c *Checker) {
+		c.rule(id, "The context.Context argument of every call through the PackageFetcher and RegistryClient interfaces (and of every tracer callback) is the caller's context or a context returned by a tracer Start callback on an edge where it was found not to be nil — never a variable that can still hold its zero value. Without a tracer (the default) the Start callbacks are not called, so the fall-back to the caller's context is what every build depends on.", 3)
+		p := c.P
+		ctxT := func(t types.Type) bool {
+			n, ok := types.Unalias(t).(*types.Named)
+			return ok && n.Obj().Name() == "Context" && n.Obj().Pkg() != nil && n.Obj().Pkg().Path() == "context"
+		}
+		var nonNil func(v ssa.Value, at *ssa.BasicBlock, seen map[ssa.Value]bool) (bool, string)
+		nonNil = func(v ssa.Value, at *ssa.BasicBlock, seen map[ssa.Value]bool) (bool, string) {
+			v = canon(v)
+			if seen[v] {
+				return true, ""
+			}
+			seen[v] = true
+			fn := at.Parent()
+			isNilCmp := func(c ssa.Value, op token.Token) bool {
+				bo, ok := c.(*ssa.BinOp)
+				return ok && bo.Op == op && ((canon(bo.X) == v && isNilConst(bo.Y)) || (canon(bo.Y) == v && isNilConst(bo.X)))
+			}
+			neT, _ := condEdges(fn, func(c ssa.Value) bool { return isNilCmp(c, token.NEQ) })
+			_, eqF := condEdges(fn, func(c ssa.Value) bool { return isNilCmp(c, token.EQL) })
+			g := append(neT, eqF...)
+			if len(g) > 0 && guarded(at, g) {
+				return true, ""
+			}
+			switch x := v.(type) {
+			case *ssa.Parameter:
+				return true, ""
+			case *ssa.FreeVar:
+				return true, "" // a captured value (not a cell): bound at the closure's creation
+			case *ssa.UnOp:
+				// a load of a local cell (a variable shared with a closure): non-nil when a normalising
+				// test `if *cell == nil { *cell = <non-nil> }` dominates the use and nothing that may be nil
+				// is stored afterwards
+				if x.Op == token.MUL {
+					cell := rootCell(x.X)
+					al, ok := cell.(*ssa.Alloc)
+					if !ok {
+						return false, "a value loaded from memory of unknown origin"
+					}
+					use := at
+					if x.Parent() != al.Parent() {
+						// the load is inside a closure: the use point is where the closure is created
+						use = nil
+						for _, mc := range closureSites(x.Parent()) {
+							if mc.Parent() == al.Parent() {
+								use = mc.Block()
+							}
+						}
+						if use == nil {
+							return false, "a variable captured through more than one closure level"
+						}
+					}
+					host := al.Parent()
+					var join *ssa.BasicBlock
+					var norm *ssa.Store
+					for _, b := range host.Blocks {
+						ifi, ok := b.Instrs[len(b.Instrs)-1].(*ssa.If)
+						if !ok {
+							continue
+						}
+						cnd, neg := stripNot(ifi.Cond)
+						bo, ok := cnd.(*ssa.BinOp)
+						if !ok || (bo.Op != token.EQL && bo.Op != token.NEQ) || !isNilConst(bo.Y) {
+							continue
+						}
+						ld, ok := bo.X.(*ssa.UnOp)
+						if !ok || ld.Op != token.MUL || ld.X != ssa.Value(al) {
+							continue
+						}
+						nilSucc := 0
+						if (bo.Op == token.NEQ) != neg {
+							nilSucc = 1
+						}
+						tb, jb := b.Succs[nilSucc], b.Succs[1-nilSucc]
+						if tb == jb || len(tb.Succs) != 1 || tb.Succs[0] != jb {
+							continue
+						}
+						for _, in := range tb.Instrs {
+							if st, ok := in.(*ssa.Store); ok && st.Addr == ssa.Value(al) {
+								if okv, _ := nonNil(st.Val, tb, seen); okv {
+									join, norm = jb, st
+								}
+							}
+						}
+					}
+					if join == nil || !(join == use || join.Dominates(use)) {
+						return false, "a variable that keeps its zero value when no Start callback is installed: no `if v == nil { v = ctx }` fall-back dominates the use"
+					}
+					after := reachFromBlock(join)
+					for _, st := range cellWrites(al) {
+						if st == norm || st.Parent() != host {
+							if st != norm && st.Parent() != host {
+								return false, "the variable is also assigned inside a closure"
+							}
+							continue
+						}
+						if after[st.Block()] {
+							if okv, _ := nonNil(st.Val, st.Block(), seen); !okv {
+								return false, "the variable is assigned a possibly-nil value after the fall-back"
+							}
+						}
+					}
+					return true, ""
+				}
+				return false, "a value of unknown origin"
+			case *ssa.Const:
+				return !isNilConst(x), "the zero value (nil) reaches the call"
+			case *ssa.Call:
+				if o := calleeObj(x); o != nil && o.Pkg() != nil && o.Pkg().Path() == "context" {
+					return true, ""
+				}
+				return false, "the result of a callback, which may be nil, reaches the call untested"
+			case *ssa.Phi:
+				for i, e := range x.Edges {
+					pred := x.Block().Preds[i]
+					// arriving over the not-nil edge of a test of e itself
+					ec := canon(e)
+					isCmpE := func(c ssa.Value, op token.Token) bool {
+						bo, ok := c.(*ssa.BinOp)
+						return ok && bo.Op == op && ((canon(bo.X) == ec && isNilConst(bo.Y)) || (canon(bo.Y) == ec && isNilConst(bo.X)))
+					}
+					t1, _ := condEdges(fn, func(c ssa.Value) bool { return isCmpE(c, token.NEQ) })
+					_, f1 := condEdges(fn, func(c ssa.Value) bool { return isCmpE(c, token.EQL) })
+					okEdge := false
+					for _, ed := range append(t1, f1...) {
+						if ed.From == pred && ed.To() == x.Block() && pred.Succs[1-ed.Succ] != x.Block() {
+							okEdge = true
+						}
+					}
+					if okEdge {
+						continue
+					}
+					if ok, why := nonNil(e, pred, seen); !ok {
+						return false, why
+					}
+				}
+				return true, ""
+			}
+			return false, "a value of unknown origin"
+		}
+		for _, fn := range p.Funcs {
+			if !inBundlePkg(p, fn) {
+				continue
+			}
+			for _, ci := range callsIn(fn) {
+				cc := ci.Common()
+				dyn := cc.IsInvoke() || cc.StaticCallee() == nil
+				if !dyn {
+					continue
+				}
+				for ai, a := range cc.Args {
+					if !ctxT(a.Type()) {
+						continue
+					}
+					what := "a callback"
+					if cc.IsInvoke() {
+						what = cc.Method.Name()
+					} else if ld, ok := cc.Value.(*ssa.UnOp); ok {
+						if fa, ok := ld.X.(*ssa.FieldAddr); ok && fieldOf(fa) != nil {
+							what = fieldOf(fa).Name()
+						}
+					}
+					ok, why := nonNil(a, ci.Block(), map[ssa.Value]bool{})
+					c.check(ok, id, p.FuncName(fn), fmt.Sprintf("context argument %d of %s", ai, what), p.Pos(ci.Pos()), "the caller's context, or a tracer's on its not-nil edge", "a nil context can reach "+what+" ("+why+"): without a tracer the Start callback is not called, the variable keeps its zero value, and the fetcher / registry client is handed a nil context")
+				}
+			}
+		}
+	}
+}
+
+// lenZeroEdges: the edges on which len(x) == 0 is known for an x satisfying match.
+func lenZeroEdges(fn *ssa.Function, match func(ssa.Value) bool) []Edge {
+	var out []Edge
+	for _, b := range fn.Blocks {
+		if len(b.Instrs) == 0 {
+			continue
+		}
+		ifi, ok := b.Instrs[len(b.Instrs)-1].(*ssa.If)
+		if !ok {
+			continue
+		}
+		cond, neg := stripNot(ifi.Cond)
+		bo, ok := cond.(*ssa.BinOp)
+		if !ok {
+			continue
+		}
+		cl, ok := bo.X.(*ssa.Call)
+		if !ok {
+			continue
+		}
+		if bi, ok := cl.Call.Value.(*ssa.Builtin); !ok || bi.Name() != "len" || !match(cl.Call.Args[0]) {
+			continue
+		}
+		k, isC := constInt(bo.Y)
+		if !isC {
+			continue
+		}
+		var emptyOnTrue bool
+		switch {
+		case (bo.Op == token.GTR || bo.Op == token.NEQ) && k == 0, bo.Op == token.GEQ && k == 1:
+			emptyOnTrue = false
+		case (bo.Op == token.EQL || bo.Op == token.LEQ) && k == 0, bo.Op == token.LSS && k == 1:
+			emptyOnTrue = true
+		default:
+			continue
+		}
+		if neg {
+			emptyOnTrue = !emptyOnTrue
+		}
+		if emptyOnTrue {
+			out = append(out, Edge{b, 0})
+		} else {
+			out = append(out, Edge{b, 1})
+		}
+	}
+	return out
 }
